@@ -77,6 +77,40 @@ def run(ck):
         if lg > bound:
             fails.append(("statistical distance (numeric evaluation at >= 1200 bits of the dumped table)", "g %s" % hd, "log2 TV = %.2f exceeds the advertised -lambda - log2(m) = %.2f" % (lg, bound)))
     ck.cov["numeric_tv"] = tvs
+    # ---- machine-checked certificates: TV(table dumped on this run, D_{Z,sigma,c}) <= 2^-lambda/m, proved by Interval
+    import re
+    from concurrent.futures import ThreadPoolExecutor
+    certsets = [((0.8, 32, 1, "-2.7", "d"), 8, 1), ((3.0, 128, 1024, "0", "d"), 8, 1)] + ([] if q else
+               [((19.5, 80, 32768, "0.5", "d"), 8, 1), ((1.0, 64, 16, "2.5", "d"), 16, 2), ((8.0, 128, 1, "0.49", "m:200"), 8, 1), ((0.3, 32, 1, "0", "d"), 8, 1), ((3.0, 256, 1048576, "-7.25", "d"), 16, 1)])
+    with vf.Lock("coq"):
+        vf.coq_makefile(); vf.sh("make -k -j%d GaussCert.vo" % vf.NCPU, cwd=vf.COQ, timeout=900)
+    def cert(idx_set):
+        idx, (prm, inb, depth) = idx_set
+        hd = gc.head(inb, depth, prm)
+        r, o, e = gc.run_lines(exe, ["g %s 0 T -" % hd])[0]
+        if r != 0 or not o: return (hd, False, "sampler construction failed", "")
+        d0 = gc.parse(o)
+        req = {"name": "c%d" % idx, "sigma": repr(prm[0]), "center": prm[3], "P": d0["wp"] * inb, "vmin": d0["vmin"], "barriers": d0["barriers"], "lambda": prm[1], "m": prm[2]}
+        if prm[4].startswith("m:"): req["center_prec"] = int(prm[4][2:])
+        rc, src, err = vf.run_io([os.path.join(vf.ROOT, "tools/gauss_cert.py")], json.dumps(req), timeout=300)
+        if rc != 0: return (hd, False, "certificate generator failed: " + err[-200:], "")
+        path = os.path.join(vf.COQ, "gen", "GaussCert_c%d.v" % idx); open(path, "w").write(src)
+        rc, out = vf.sh(["coqc", "-Q", ".", "NTT", "gen/GaussCert_c%d.v" % idx], cwd=vf.COQ, timeout=3000)
+        axioms = sorted(set(re.findall(r"^([A-Z][\w]*\.[\w.]+)\s*$|^([A-Z][\w]*\.[\w.]+)\s*:", out, re.M)))
+        names = sorted({x for pair in axioms for x in pair if x})
+        return (hd, rc == 0, " ".join(out.split())[-300:] if rc != 0 else "", names)
+    with ThreadPoolExecutor(max(1, vf.NCPU // 2)) as ex: cres = list(ex.map(cert, list(enumerate(certsets))))
+    okp = ("ClassicalDedekindReals.", "FunctionalExtensionality.", "Classical_Prop.", "Uint63.", "PrimInt63.", "PrimFloat.", "FloatAxioms.", "FloatOps.", "Sint63.", "SpecFloat.")
+    ck.cov["tv_certificates"] = [{"params": hd, "proved": ok_, "theorem": "TV a c vmin qs <= 2^-lambda/m (gen/GaussCert_c*.v, Interval)"} for hd, ok_, msg, ax in cres]
+    ck.cov["tv_certificate_axioms"] = sorted({a for _, _, _, ax in cres for a in ax})
+    ncert_ok = sum(1 for _, ok_, _, _ in cres if ok_)
+    for hd, ok_, msg, ax in cres:
+        if not ok_:
+            tvm = [t for t in tvs if t.get("params") == hd]
+            fails.append(("statistical-distance certificate no longer checks", "g %s" % hd, "Interval could not prove TV <= 2^-lambda/m for the dumped table (%s); numeric log2 TV: %s" % (msg[-160:], tvm[0].get("log2_tv") if tvm else "n/a")))
+        elif any(not a.startswith(okp) for a in ax):
+            fails.append(("certificate depends on an unexpected axiom", hd, str([a for a in ax if not a.startswith(okp)])))
+    ck.stream("machine-checked TV certificates (Interval) for tables dumped on this run", max(1, len(cres)), max(2, len(cres)))
     ck.stream("numeric total-variation evaluations (mpmath)", max(1, len(tvs)), max(2, len(tvs)))
     ck.cov["tables"] = tables[:12]
     ck.stream("probe strings: every (sampled) barrier -1/0/+1, cell boundaries of the first and second word, extremes, random; 4 table layouts x parameter sets", nprobe)
@@ -88,8 +122,10 @@ def run(ck):
                      else "proof obligation no longer checks: %s" % ck.proof["broken"], {"examples": [str(c) for c in corr[:5]], "broken_obligation": ck.proof.get("broken")}, tag="correspondence", no_input=True)
     ck.assumptions = ["MPFR (mpfr_exp, RNDN at run-time precision) and libm (log, log2, sqrt, ceil on double) are not modelled: their results enter as data (the dumped barrier table)",
                       "the statistical-distance bound is not proved for all (sigma, lambda, m, c); see DESIGN.md (C10) for what is certified"]
-    return ck.finish(trusted=["coqc 8.16.1 kernel", "h_gauss.cpp (#define private public, scripted tape)", "Coquelicot/Interval axioms of the classical reals for the tail bound (listed per theorem)"],
-                     extra_cov={"partial": "structure (decode = barrier count, monotone, mass = interval length) proved for every sorted table; distance: tail bound lemma proved, per-table certificate not yet generated"})
+    if ck.proof: ck.proof["obligations"] += len(cres); ck.proof["discharged"] += ncert_ok
+    return ck.finish(trusted=["coqc 8.16.1 kernel", "h_gauss.cpp (#define private public, scripted tape)", "tools/gauss_cert.py (certificate generator; its numeric hints are re-checked by Interval)",
+                              "Coq Interval 4.x + Coquelicot (classical real axioms; primitive 63-bit integers and floats of the kernel)", "mpmath numeric evaluation (supporting only)"],
+                     extra_cov={"partial": "structure proved for every sorted table; distance proved per dumped table for the listed parameter sets (not for all sigma, lambda, m, c)"})
 
 def replay(ck, rec):
     print("replay case:", rec.get("case", "")[:300]); return 1
